@@ -231,34 +231,34 @@ Proof. intros o sep v vs [[H1 H2]|H]; [left; split; [assumption|intros; apply H2
 Lemma vsep_forms : forall o sep vs, vsep_ok o sep vs -> sep = s_sp ++ s_bar_sp \/ sep = s_nl_tab ++ s_bar_sp.
 Proof. intros o sep vs [[H _]|H]; auto. Qed.
 
-Lemma print_variants_fst : forall o sep first force v r,
-  fst (print_variants o sep first force (v :: r)) =
+Lemma print_variants_fst : forall o sep single first force v r,
+  fst (print_variants o sep single first force (v :: r)) =
     let has := cm_printed o (v_comment v) in
     (if has then s_nl_tab ++ join s_nl_tab (comment_lines (v_comment v)) else []) ++
-    (if negb first || (force || has) then sep else []) ++
+    (if negb first || (force || has) || single then sep else []) ++
     fst (print_variant o v (len sep)) ++
-    fst (print_variants o sep false (force || has || snd (print_variant o v (len sep))) r).
+    fst (print_variants o sep single false (force || has || snd (print_variant o v (len sep))) r).
 Proof.
   intros. cbn [print_variants]. fold (cm_printed o (v_comment v)).
   destruct (print_variant o v (len sep)) as [vt vf]. cbn [fst snd].
-  destruct (print_variants o sep false (force || cm_printed o (v_comment v) || vf) r) as [rt rf]. reflexivity.
+  destruct (print_variants o sep single false (force || cm_printed o (v_comment v) || vf) r) as [rt rf]. reflexivity.
 Qed.
 
-Lemma variants_rest_nid : forall o sep force r tail,
+Lemma variants_rest_nid : forall o sep single force r tail,
   (sep = s_sp ++ s_bar_sp \/ sep = s_nl_tab ++ s_bar_sp) -> nid tail ->
-  nid (fst (print_variants o sep false force r) ++ tail).
+  nid (fst (print_variants o sep single false force r) ++ tail).
 Proof.
-  intros o sep force [|v r] tail Hs Ht; [exact Ht|]. rewrite print_variants_fst. cbn zeta.
+  intros o sep single force [|v r] tail Hs Ht; [exact Ht|]. rewrite print_variants_fst. cbn zeta.
   destruct (cm_printed o (v_comment v)); [reflexivity|]. cbn [negb orb app].
   destruct Hs as [-> | ->]; reflexivity.
 Qed.
 
-Lemma LexTo_variants : forall o sep vs first force,
+Lemma LexTo_variants : forall o sep single vs first force,
   vsep_ok o sep vs -> forallb (wf_variant o) vs = true ->
-  LexTo (fst (print_variants o sep first force vs))
-        (toks_variants_from (negb first || (force || match vs with v :: _ => cm_printed o (v_comment v) | [] => false end)) vs) nid.
+  LexTo (fst (print_variants o sep single first force vs))
+        (toks_variants_from (negb first || (force || match vs with v :: _ => cm_printed o (v_comment v) | [] => false end) || single) vs) nid.
 Proof.
-  intros o sep vs. induction vs as [|v r IH]; intros first force Hs Hw; [apply LexTo_nil|].
+  intros o sep single vs. induction vs as [|v r IH]; intros first force Hs Hw; [apply LexTo_nil|].
   cbn [forallb] in Hw. apply andb_true_iff in Hw. destruct Hw as [Hv Hr].
   rewrite print_variants_fst. cbn zeta. unfold toks_variants_from.
   pose proof (vsep_forms _ _ _ Hs) as Hf.
@@ -269,12 +269,12 @@ Proof.
   - destruct (cm_printed o (v_comment v)) eqn:E; [|apply LexTo_nil].
     apply (LexTo_app s_nl_tab [] any_tail _ [] eol_next); [apply LexTo_blanks; reflexivity| |intros; exact I].
     apply LexTo_join_lines. unfold wf_comment in Hcm. unfold cm_printed in E. destruct (o_ignore o); [discriminate|exact Hcm].
-  - apply (LexTo_app _ _ any_tail _ _ nid); [destruct (negb first || (force || cm_printed o (v_comment v))); [now apply LexTo_barsep|apply LexTo_nil]| |intros; exact I].
+  - apply (LexTo_app _ _ any_tail _ _ nid); [destruct (negb first || (force || cm_printed o (v_comment v)) || single); [now apply LexTo_barsep|apply LexTo_nil]| |intros; exact I].
     apply (LexTo_app _ _ nid _ _ nid); [now apply LexTo_variant| |intros; now apply variants_rest_nid].
     specialize (IH false (force || cm_printed o (v_comment v) || snd (print_variant o v (len sep))) (vsep_ok_tl _ _ _ _ Hs) Hr).
     cbn [negb orb] in IH. destruct r as [|v2 r]; [apply LexTo_nil|]. exact IH.
   - intros tail _. destruct (cm_printed o (v_comment v)) eqn:E; [|exact I].
-    rewrite orb_true_r, orb_true_r. destruct Hs as [[_ Hn]|Hs]; [rewrite Hn in E; [discriminate|now left]|].
+    rewrite orb_true_r, orb_true_r. cbn [orb]. destruct Hs as [[_ Hn]|Hs]; [rewrite Hn in E; [discriminate|now left]|].
     subst sep. reflexivity.
 Qed.
 
@@ -289,7 +289,7 @@ Definition wf_def (o : options) (d : typedef) : bool :=
 (* is the first variant of a union written with its bar: only when the definition is laid out on several lines *)
 Definition def_bar (o : options) (d : typedef) (force : bool) : bool :=
   match d with
-  | DUnion vs => force || (negb (o_ignore o) && existsb variant_has_comment vs)
+  | DUnion vs => force || (negb (o_ignore o) && existsb variant_has_comment vs) || Nat.eqb (length vs) 1
   | _ => false
   end.
 
@@ -327,8 +327,8 @@ Proof.
     destruct (nonempty (f_comment f)) eqn:E2; [|reflexivity].
     assert (existsb (fun f => nonempty (f_comment f)) fs = true) by (apply existsb_exists; eauto). congruence.
   - set (force1 := force || negb (o_ignore o) && existsb variant_has_comment vs).
-    destruct (print_variants o ((if force1 then s_nl_tab else s_sp) ++ s_bar_sp) true force1 vs) as [t f] eqn:E.
-    cbn [fst]. assert (Et : t = fst (print_variants o ((if force1 then s_nl_tab else s_sp) ++ s_bar_sp) true force1 vs)) by now rewrite E.
+    destruct (print_variants o ((if force1 then s_nl_tab else s_sp) ++ s_bar_sp) (Nat.eqb (length vs) 1) true force1 vs) as [t f] eqn:E.
+    cbn [fst]. assert (Et : t = fst (print_variants o ((if force1 then s_nl_tab else s_sp) ++ s_bar_sp) (Nat.eqb (length vs) 1) true force1 vs)) by now rewrite E.
     rewrite Et. clear E Et t f.
     apply (LexTo_app _ _ any_tail _ _ nid); [destruct isret; cbn [negb]; [apply LexTo_nil|apply LexTo_sp_eq_sp]| |intros; exact I].
     rewrite toks_variants_join.
@@ -339,7 +339,7 @@ Proof.
       assert (existsb variant_has_comment vs = true).
       { apply existsb_exists. exists v. split; [assumption|]. unfold variant_has_comment. now rewrite E2. }
       congruence. }
-    pose proof (LexTo_variants o _ vs true force1 Hsep H) as L. cbn [negb orb] in L.
+    pose proof (LexTo_variants o _ (Nat.eqb (length vs) 1) vs true force1 Hsep H) as L. cbn [negb orb] in L.
     replace (force1 || match vs with [] => false | v :: _ => cm_printed o (v_comment v) end) with force1 in L; [exact L|].
     destruct vs as [|v r]; [now rewrite orb_false_r|]. destruct (cm_printed o (v_comment v)) eqn:E2; [|now rewrite orb_false_r].
     unfold force1. unfold cm_printed in E2. apply andb_true_iff in E2. destruct E2 as [E2 E3]. rewrite E2.
